@@ -720,7 +720,27 @@ class Interp(StmtMixin, ExtMixin, OpsMixin, InterpCore):
             if len(emitted) != 1 or grown:
                 self.err(st, "chunk idiom must emit to exactly one stream")
             b, new = emitted[0]
-            row = self.chunk_row(ch, self.expand_row(ch, SCat(new), st), st)
+            # rows written under path conditions that hold for the whole loop (e.g. "the shared generator still had items"):
+            # the row is analysed without them and the finished chunk is put back under them
+            wrap = None
+            unwrapped = []
+            for piece in new:
+                conds = []
+                while isinstance(piece, SAlt) and (_is_empty(piece.b) or _is_empty(piece.a)):
+                    conds.append((piece.cond, _is_empty(piece.b)))
+                    piece = piece.a if _is_empty(piece.b) else piece.b
+                key = tuple((c.key(), v) for c, v in conds)
+                if wrap is None:
+                    wrap = (key, conds)
+                elif wrap[0] != key:
+                    self.err(st, "chunk rows written under differing conditions")
+                unwrapped.append(piece)
+            if wrap is not None and wrap[1]:
+                new_inner = unwrapped
+                ch["wrap_conds"] = wrap[1]
+            else:
+                new_inner = new
+            row = self.chunk_row(ch, self.expand_row(ch, SCat(new_inner), st), st)
             ch["node"] = row
             ch["emitted_in"] = b
             placeholder = SLit("")
@@ -774,6 +794,8 @@ class Interp(StmtMixin, ExtMixin, OpsMixin, InterpCore):
                 c.prefix = n["prefix"]
                 c.spec_id = id(chunk)
                 chunk["chunknode"] = c
+                for cond, val in reversed(chunk.get("wrap_conds") or []):
+                    c = SAlt(cond, c, SLit("")) if val else SAlt(cond, SLit(""), c)
                 return c
             raise AnalysisError("chunk idiom mixed with other output in the same loop")
         return StmtMixin.wrap_rep(self, ctx, body, None)
